@@ -39,12 +39,25 @@ def load_tree():
     sys.dont_write_bytecode = True
     if sys.path[0] != REPO:
         sys.path.insert(0, REPO)
-    for name in [m for m in sys.modules if m == "cvss" or m.startswith("cvss.")]:
-        del sys.modules[name]
-    import cvss  # noqa
+    def forget():
+        for name in [m for m in sys.modules if m == "cvss" or m.startswith("cvss.")]:
+            del sys.modules[name]
 
+    forget()
+    import cvss  # noqa   (first import: pulls in every standard-library module the package needs)
     import cvss.cvss_calculator  # noqa
     import cvss.parser  # noqa
+    import cvss.interactive  # noqa
+
+    # second import, the one that is used: `threading` resolves to the cooperative proxy, so that
+    # any lock / condition / event the package creates is visible to the E4 scheduler
+    from .engine import coop
+    forget()
+    with coop.importing():
+        import cvss  # noqa
+        import cvss.cvss_calculator  # noqa
+        import cvss.parser  # noqa
+        import cvss.interactive  # noqa
 
     got = os.path.dirname(os.path.dirname(os.path.abspath(cvss.__file__)))
     if got != REPO:
@@ -170,32 +183,53 @@ def in_fork(fn):
 
 
 _TASK_FUNCS = {}
+_NO_PRIOR = set()
 CURRENT_TIER = None
+PRIOR_STATS = {"tasks": 0, "after_prior": 0}
+
+
+def maybe_prior(arg):
+    """Runs the prior history (vf.prior) when the task's deterministic coin says so."""
+    from . import prior
+    if os.environ.get("VERIF_NO_PRIOR") or not prior.wanted(arg):
+        return False
+    prior.run()
+    return True
+
 
 
 def _call_task(t):
     key, item = t
     reset_ambient()
     func = _TASK_FUNCS[key]
+    warmed = key not in _NO_PRIOR and maybe_prior([key, item])
     acc = func(item)
+    if isinstance(acc, dict):
+        acc["prior"] = int(warmed)
     if isinstance(acc, dict) and acc.get("bad"):
         try:
             blob = json.dumps(item)
             if len(blob) < 60000:
                 for c in acc["bad"]:
-                    c.setdefault("task", {"func": key, "arg": json.loads(blob)})
+                    c.setdefault("task", {"func": key, "arg": json.loads(blob), "prior": bool(warmed)})
                     c.setdefault("tier", CURRENT_TIER)
         except (TypeError, ValueError):
             pass
     return acc
 
 
-def task_map(func, items, nproc=None):
+def task_map(func, items, nproc=None, prior=True):
     """pool_map with every item in a fresh fork; cases found by an item are tagged with the
-    (function, argument) that produced them so that the whole item can be replayed."""
+    (function, argument) that produced them so that the whole item can be replayed. Half of the
+    items (deterministic coin on the argument) run after the prior history, see vf.prior."""
     key = "%s:%s" % (func.__module__, func.__name__)
     _TASK_FUNCS[key] = func
-    return pool_map(_call_task, [(key, i) for i in items], nproc=nproc, fresh=True)
+    if not prior:
+        _NO_PRIOR.add(key)
+    out = pool_map(_call_task, [(key, i) for i in items], nproc=nproc, fresh=True)
+    PRIOR_STATS["tasks"] += len(out)
+    PRIOR_STATS["after_prior"] += sum(a.get("prior", 0) for a in out if isinstance(a, dict))
+    return out
 
 
 def replay_func_task(case, setup=None):
@@ -207,6 +241,9 @@ def replay_func_task(case, setup=None):
     if setup:
         setup(case)
     arg = t["arg"]
+    if t.get("prior"):
+        from . import prior
+        prior.run()
     acc = getattr(mod, fname)(_tuplify(arg))
     hit = [c for c in acc.get("bad", []) if c.get("input") == case.get("input")]
     if hit:
@@ -345,6 +382,11 @@ def run_check(prop, tier, seed, module):
             res.violations.append(case)
         else:
             module.run(ctx, res)
+            if getattr(ctx, "depth_stats", None):
+                res.coverage["depth_phases"] = ctx.depth_stats
+            if PRIOR_STATS["tasks"]:
+                res.coverage["fresh_fork_tasks"] = dict(PRIOR_STATS, note="after_prior = tasks that first ran "
+                                                        "the prior history of vf/prior.py")
     except HarnessError as e:
         print("HARNESS-ERROR property=%s %s" % (prop, e), file=sys.stderr)
         traceback.print_exc()
@@ -420,7 +462,12 @@ def run_replay(prop, path, module, quiet=False, task=False):
         return 0
     load_tree()
     reset_ambient()
+    global CURRENT_TIER
+    CURRENT_TIER = case.get("tier") or CURRENT_TIER
+    from . import observe
+    observe.ENTRY = case.get("entry", "direct")
     if task:
+        observe.ENTRY = "direct"      # a task chooses the entry point of each of its points itself
         bad, detail = module.replay_task(case)
     else:
         bad, detail = module.replay(case)
